@@ -81,11 +81,18 @@ class ExcelType:
         # Highjacking bitwise "or" to implement logical "or"
         return Boolean(bool(self) or bool(other))
 
+    # The reflected operators are used when the left operand is a native
+    # value, e.g. `5 - Number(3)`. Subtraction and power are not commutative:
+    # the operands have to be swapped back.
+    def __rsub__(self, other):
+        return Number.cast(other) - self
+
+    def __rpow__(self, other):
+        return Number.cast(other) ** self
+
     __radd__ = __add__
-    __rsub__ = __sub__
     __rmul__ = __mul__
     __rtruediv__ = __truediv__
-    __rpow__ = __pow__
     __rand__ = __and__
     __ror__ = __or__
 
@@ -179,7 +186,8 @@ class Number(ExcelType):
     def __mod__(self, other):
         return Number(self.value % Number.cast(other).value)
 
-    __rmod__ = __mod__
+    def __rmod__(self, other):
+        return Number.cast(other) % self
 
     def __neg__(self):
         return Number(self.value.__neg__())
